@@ -1192,8 +1192,19 @@ func (f *Frame) selectOp(x *ssa.Select, st *State) Value {
 	return Value{Tuple: vals, Ty: x.Type()}
 }
 
+// strIterRegion names the ghost region that holds the byte position of a string range iterator
+// (the offset of the next character); contracts read it as rangepos().
+func (f *Frame) strIterRegion(x *ssa.Range) string {
+	region := "Gh_iter_" + sanitize(f.fn.Name()) + "_" + x.Name()
+	f.u.regionSort(region, bvSort(64))
+	return region
+}
+
 func (f *Frame) rangeOp(x *ssa.Range, st *State) Value {
-	// iterator state is opaque
+	if isStringType(x.X.Type()) {
+		st.heap[f.strIterRegion(x)] = bv64(0)
+	}
+	// (map iterators are opaque)
 	return Value{T: f.u.sc.fresh("iter", SInt), Ty: x.Type()}
 }
 
@@ -1207,8 +1218,18 @@ func (f *Frame) nextOp(x *ssa.Next, st *State) Value {
 		k := u.sc.fresh("spos", bvSort(64))
 		r := u.sc.fresh("srune", bvSort(32))
 		if rng != nil {
+			// the iterator walks the string front to back: it yields the offset it stands at and
+			// advances by the encoded width of that character (1..4 bytes, within the string)
 			sv := f.term(f.val(rng.X))
-			u.assume(mkAnd(st.reach, ok), mkAnd(mk(SBool, "bvsle", bv64(0), k), mk(SBool, "bvslt", k, mk(bvSort(64), "strlen", sv))))
+			ln := mk(bvSort(64), "strlen", sv)
+			region := f.strIterRegion(rng)
+			p := u.heapGet(st.heap, region)
+			okT := mkAnd(mk(SBool, "bvsle", bv64(0), p), mk(SBool, "bvslt", p, ln))
+			u.assume(st.reach, mkEq(ok, okT))
+			w := u.sc.fresh("swidth", bvSort(64))
+			u.assume(mkAnd(st.reach, ok), mkAnd(mkEq(k, p), mk(SBool, "bvsle", bv64(1), w), mk(SBool, "bvsle", w, bv64(4)),
+				mk(SBool, "bvsle", mk(bvSort(64), "bvadd", p, w), ln)))
+			st.heap[region] = u.freshDef("iterpos", mkIte(ok, mk(bvSort(64), "bvadd", p, w), p))
 		}
 		vals = append(vals, Value{T: k, Ty: tt.At(1).Type()}, Value{T: r, Ty: tt.At(2).Type()})
 		return Value{Tuple: vals, Ty: x.Type()}
